@@ -111,7 +111,7 @@ def rel_C20(ln, prev):
 
 
 def world_check(ctx, relevant, profiles, mcs=(), scenarios=(), level='model_checking', assumptions=(), tags='verif',
-                trace_cfg='TraceAbs.cfg', extra_cov=None):
+                trace_cfg='TraceAbs.cfg', extra_cov=None, extra=None):
     """Generic check of the world family: model checking + trace validation of recorded executions."""
     build_harness(ctx, tags)
     mc = [model_check(ctx, m, c, **kw) for (m, c, kw) in mcs]
@@ -128,10 +128,14 @@ def world_check(ctx, relevant, profiles, mcs=(), scenarios=(), level='model_chec
         pairs.append((run_schedules(ctx, s, tags=tags, label=os.path.basename(s)), s))
     ctx.log('recorded %d trace files' % len(pairs))
     results = parallel(lambda p: validate(ctx, p[0], cfg=trace_cfg), pairs)
-    return finish(ctx, relevant, pairs, results, mc, level, assumptions, extra_cov)
+    xv = []
+    if extra:
+        extra_cov = dict(extra_cov or {})
+        xv = extra(ctx, extra_cov)
+    return finish(ctx, relevant, pairs, results, mc, level, assumptions, extra_cov, xv)
 
 
-def finish(ctx, relevant, pairs, results, mc, level, assumptions, extra_cov=None):
+def finish(ctx, relevant, pairs, results, mc, level, assumptions, extra_cov=None, extra_viols=()):
     known = [k for k in load_known() if k.get('status') == 'open' and k.get('property') == ctx.prop]
     nsched = nlines = nchecks = 0
     distinct = set()
@@ -182,6 +186,15 @@ def finish(ctx, relevant, pairs, results, mc, level, assumptions, extra_cov=None
         replays.append(p)
         print('VIOLATION property=%s replay=%s' % (ctx.prop, p))
         print('  check=%s op=%s step=%d (trace line %d)' % (v['check'], v['op'], v['i'], v['line']), flush=True)
+    for n, (desc, payload) in enumerate(extra_viols):
+        d = os.path.join(VERIF, 'evidence', 'replays')
+        os.makedirs(d, exist_ok=True)
+        p = os.path.join(d, '%s-%d-x%d.json' % (ctx.prop, ctx.seed, n))
+        json.dump(payload, open(p, 'w'))
+        if n < 5:
+            print('VIOLATION property=%s replay=%s' % (ctx.prop, p))
+            print('  ' + desc, flush=True)
+    viols = viols + [None] * len(extra_viols)
     cov = dict(
         states=sum(m['distinct'] for m in mc), transitions=sum(m['generated'] for m in mc),
         traces_validated_against_impl=nsched, evaluations=nchecks, distinct_nontrivial=len(distinct),
@@ -236,6 +249,32 @@ def mc_abs(ctx, locks=False):
 def W(rel, profiles, locks=False, pool=False, **kw):
     return lambda ctx: world_check(ctx, rel, profiles, mcs=mc_abs(ctx, locks) + (mc_pool(ctx) if pool else []),
                                    assumptions=A_WORLD, **kw)
+
+
+def locks_part(ctx, cov):
+    """C09: lock sources x entry points x release paths, nesting to the bit limit; both builds."""
+    viols = []
+    runs = []
+    for tags in ('verif', 'verif,tiny'):
+        h = build_harness(ctx, tags)
+        out = ctx.path('locks-%s.ndjson' % tags.replace(',', '-'))
+        r = sh([h, 'locks', '-seed', str(ctx.seed), '-tier', ctx.tier, '-out', out], timeout=600)
+        if r.returncode != 0:
+            raise Infra('locks mode failed: ' + r.stdout[-2000:])
+        res = validate(ctx, out, module='TraceLocks.tla', cfg='TraceLocks.cfg')
+        lines = read_lines(out)
+        apis = sorted({l['api'] for l in lines if l['op'] == 'struct'})
+        runs.append(dict(build=tags, lines=res['lines'], checks=res['checks']['C09'], hidden_state_drift=res['drift'],
+                         entry_points=len(apis), max_nesting=max(l['nheld'] for l in lines if 'nheld' in l)))
+        for v in res['violations']:
+            ln = lines[v['line'] - 1] if v['line'] else {}
+            viols.append(('check=%s build=%s (lock trace line %d)' % (v['check'], tags, v['line']),
+                          dict(mode='locks', seed=ctx.seed, tags=tags, line=ln, check=v['check'])))
+    mc = model_check(ctx, 'MCLocks.tla', 'MCLocks.cfg', timeout=600)
+    cov['lock_runs'] = runs
+    cov['lock_model'] = mc
+    cov['entry_point_table'] = apis
+    return viols
 
 
 def c04(ctx):
@@ -304,7 +343,7 @@ PROPS = {
     'C06': W(rel_C06, [('base', 60, 1000), ('relations', 140, 1500)]),
     'C07': W(rel_C07, [('base', 60, 1000), ('cache', 140, 1500)], locks=True),
     'C08': W(rel_C08, [('base', 60, 1000), ('batch', 140, 1500)]),
-    'C09': W(rel_C09, [('base', 60, 1000), ('locks', 140, 1500)], locks=True),
+    'C09': W(rel_C09, [('base', 60, 1000), ('locks', 140, 1500)], locks=True, extra=locks_part),
     'C10': W(rel_C10, [('base', 60, 1000), ('faults', 140, 1500)]),
     'C11': W(rel_C11, [('events', 200, 2500)]),
     'C15': W(rel_C15, [('resettwin', 160, 2000), ('reset', 40, 500)], pool=True),
